@@ -1,7 +1,7 @@
 /-
   Rrss.Lemmas.RoundTripBlock — C02, parser half: line ends, blocks, `if`/`else`, loops, functions.
 -/
-import Rrss.Lemmas.RoundTripStmt
+import Rrss.Lemmas.RoundTripPoetic
 namespace Rrss
 namespace Grammar
 open Parser
@@ -26,21 +26,18 @@ theorem expectEol_nl (c : Choices N) (rest : List (Tok N)) (src last eof b) :
       = .ok ((), ⟨src, rest, (tk (.kw .newline) c : Tok N).after, eof, b⟩) := by
   simp [expectEol, bind_run, mac_cons, isAnyKind, expectTokenOrEnd, current_run, advance_cons, pure_run]
 
+omit [CharOps] in
 /-- the first token of a line end -/
-theorem eol_head (e : Eol) (c : Choices N) (hit : c.NoIt) : ∃ (k : TK) (c' : Choices N) (ts : List (Tok N)),
+theorem eol_head (e : Eol) (c : Choices N) : ∃ (k : TK) (c' : Choices N) (ts : List (Tok N)),
     eolToks e c = tk (.kw k) c' :: ts ∧
-    (k = TK.dot ∨ k = TK.newline ∨ (k = TK.comma ∧ e = Eol.comma)) ∧
-    (CharOps.lower c'.here.spelling == str% "it") = false := by
+    ((k = TK.dot ∧ e = Eol.dot) ∨ k = TK.newline ∨ (k = TK.comma ∧ e = Eol.comma)) := by
   cases e with
-  | none => exact ⟨TK.newline, c.sub 1, [], rfl, Or.inr (Or.inl rfl), hit [1]⟩
-  | dot => exact ⟨TK.dot, c.sub 0, _, rfl, Or.inl rfl, hit [0]⟩
-  | comma => exact ⟨TK.comma, c.sub 0, _, rfl, Or.inr (Or.inr ⟨rfl, rfl⟩), hit [0]⟩
+  | none => exact ⟨TK.newline, c.sub 1, [], rfl, Or.inr (Or.inl rfl)⟩
+  | dot => exact ⟨TK.dot, c.sub 0, _, rfl, Or.inl ⟨rfl, rfl⟩⟩
+  | comma => exact ⟨TK.comma, c.sub 0, _, rfl, Or.inr (Or.inr ⟨rfl, rfl⟩)⟩
 
 omit [CharOps] in
 theorem sane_sub {c : Choices N} {src : Str} (h : c.Sane src) (i : Nat) : (c.sub i).Sane src :=
-  fun q => h (i :: q)
-
-theorem noIt_sub {c : Choices N} (h : c.NoIt) (i : Nat) : (c.sub i).NoIt :=
   fun q => h (i :: q)
 
 /-- an expression may be followed by a line end -/
@@ -78,14 +75,16 @@ theorem nextIn_kw {ks : List TK} {k : TK} (hk : k ∉ ks) (c' : Choices N) (ts :
     nextIn ks (tk (.kw k) c' :: ts) = false := by
   simpa [nextIn_cons] using hk
 
-omit [CharOps] in
-@[simp] theorem tk_kw_spelling (k : TK) (c : Choices N) : (tk (.kw k) c).spelling = c.here.spelling := rfl
-
 /-- a one-line statement may be followed by its line end -/
 theorem simple_stop_eolkw (s : SimpleStmt N) (k : TK) (c' : Choices N) (ts : List (Tok N))
-    (hk : k = .dot ∨ k = .newline ∨ (k = .comma ∧ s.commaOK = true))
-    (hsp : (CharOps.lower c'.here.spelling == str% "it") = false) :
+    (hk0 : (k = .dot ∧ s.dotOK = true) ∨ k = .newline ∨ (k = .comma ∧ s.commaOK = true))
+    (hpeek : s.PeekStop (tk (.kw k) c' :: ts)) :
     s.Stop (tk (.kw k) c' :: ts) := by
+  have hk : k = .dot ∨ k = .newline ∨ (k = .comma ∧ s.commaOK = true) := by
+    rcases hk0 with h | h | h
+    · exact Or.inl h.1
+    · exact Or.inr (Or.inl h)
+    · exact Or.inr (Or.inr h)
   have hdn : ∀ ks : List TK, TK.dot ∉ ks → TK.newline ∉ ks → (TK.comma ∉ ks ∨ s.commaOK = false) →
       nextIn ks (tk (.kw k) c' :: ts) = false := by
     intro ks h1 h2 h3
@@ -155,11 +154,7 @@ theorem simple_stop_eolkw (s : SimpleStmt N) (k : TK) (c' : Choices N) (ts : Lis
   | ret kw e => exact ⟨expr_stop_eolkw e k c' ts hk, hdn _ (by decide) (by decide) (Or.inl (by decide))⟩
   | break_ it =>
     cases it with
-    | none =>
-      intro t ht
-      simp only [List.head?_cons, Option.some.injEq] at ht
-      subst ht
-      simpa using hsp
+    | none => exact hpeek
     | some it => trivial
   | continue_ itThe => trivial
   | mutation op p into param =>
@@ -183,6 +178,14 @@ theorem simple_stop_eolkw (s : SimpleStmt N) (k : TK) (c' : Choices N) (ts : Lis
           hdn _ (by decide) (by decide) (Or.inl (by decide))⟩
   | call f a as =>
     exact ⟨hdn _ (by decide) (by decide) (Or.inl (by decide)), hdn _ (by decide) (by decide) (Or.inr rfl)⟩
+  | poeticLit t lit => exact hpeek
+  | poeticExpr t e => exact expr_stop_eolkw e k c' ts hk
+  | poeticStr t text junk =>
+    rcases hk0 with h | h | h
+    · simp [SimpleStmt.dotOK] at h
+    · subst h; exact Or.inr rfl
+    · simp [SimpleStmt.commaOK] at h
+  | rockLike p lit => exact hpeek
 
 /-! ### unfolding (the equation compiler gives no equation lemmas for these nested definitions) -/
 
@@ -243,7 +246,69 @@ theorem stmtsWf_cons (s : Statement N) (ss : List (Statement N)) :
     stmtsWf (s :: ss) = (s.wf && stmtsWf ss) := rfl
 
 theorem simple_wf (s : SimpleStmt N) (eol : Eol) :
-    (Statement.simple s eol).wf = (s.wf && (eol != .comma || s.commaOK)) := rfl
+    (Statement.simple s eol).wf = (s.wf && ((eol != .comma || s.commaOK) && (eol != .dot || s.dotOK))) := rfl
+
+/-! ### unfolding `Fits` -/
+
+theorem simple_fits (src : Str) (s : SimpleStmt N) (eol : Eol) (c : Choices N) (rest : List (Tok N)) :
+    (Statement.simple s eol).Fits src c rest = s.Fits src c rest := rfl
+
+theorem ifS_fits (src : Str) (cond : Expression N) (eol : Eol) (t : List (Statement N))
+    (e : Option (List (Statement N))) (c : Choices N) (rest : List (Tok N)) :
+    (Statement.ifS cond eol t e).Fits src c rest = (linesFit src t (c.sub 3) ∧
+      (match e with
+       | some b => linesFit src b (c.sub 6)
+       | none => True)) := by
+  cases e <;> rfl
+
+theorem whileS_fits (src : Str) (cond : Expression N) (eol : Eol) (b : List (Statement N)) (c : Choices N)
+    (rest : List (Tok N)) : (Statement.whileS cond eol b).Fits src c rest = linesFit src b (c.sub 3) := rfl
+
+theorem untilS_fits (src : Str) (cond : Expression N) (eol : Eol) (b : List (Statement N)) (c : Choices N)
+    (rest : List (Tok N)) : (Statement.untilS cond eol b).Fits src c rest = linesFit src b (c.sub 3) := rfl
+
+theorem func_fits (src : Str) (f p : VarSpec) (ps : List VarSpec) (eol : Eol) (b : List (Statement N))
+    (c : Choices N) (rest : List (Tok N)) :
+    (Statement.func f p ps eol b).Fits src c rest = fnLinesFit src b (c.sub 5) := rfl
+
+theorem linesFit_cons (src : Str) (s : Statement N) (ss : List (Statement N)) (c : Choices N) :
+    linesFit src (s :: ss) c = (s.Fits src (c.sub 0) (s.eolToks (c.sub 1)) ∧ s.EolOK (c.sub 1) ∧
+      linesFit src ss (c.sub 2)) := rfl
+
+theorem fnLinesFit_cons (src : Str) (s : Statement N) (ss : List (Statement N)) (c : Choices N) :
+    fnLinesFit src (s :: ss) c = ((if ss.isEmpty && s.isIfElse then s.Fits src (c.sub 0) []
+       else s.Fits src (c.sub 0) (s.eolToks (c.sub 1)) ∧ s.EolOK (c.sub 1)) ∧ fnLinesFit src ss (c.sub 2)) := rfl
+
+omit [CharOps] in
+theorem lineText_congr (src : Str) (start : Nat) {r r' : List (Tok N)} (h : r.head? = r'.head?) :
+    lineText src start r = lineText src start r' := by
+  cases r <;> cases r' <;> simp_all [lineText]
+
+theorem simple_fits_congr (src : Str) (s : SimpleStmt N) (c : Choices N) {r r' : List (Tok N)}
+    (h : r.head? = r'.head?) (hf : s.Fits src c r) : s.Fits src c r' := by
+  cases s with
+  | poeticStr t text junk =>
+    simp only [SimpleStmt.Fits] at hf ⊢
+    rw [← lineText_congr src _ h]; exact hf
+  | _ => exact hf
+
+theorem stmt_fits_congr (src : Str) (s : Statement N) (c : Choices N) {r r' : List (Tok N)}
+    (h : r.head? = r'.head?) (hf : s.Fits src c r) : s.Fits src c r' := by
+  cases s with
+  | simple s eol => exact simple_fits_congr src s c h hf
+  | ifS cond eol t e => rw [ifS_fits] at hf ⊢; exact hf
+  | whileS cond eol b => exact hf
+  | untilS cond eol b => exact hf
+  | func f p ps eol b => exact hf
+
+theorem stmt_fits_congr_compound (src : Str) (s : Statement N) (c : Choices N) (hie : s.isIfElse = true)
+    {r r' : List (Tok N)} (hf : s.Fits src c r) : s.Fits src c r' := by
+  cases s with
+  | simple s eol => simp [Statement.isIfElse] at hie
+  | ifS cond eol t e => rw [ifS_fits] at hf ⊢; exact hf
+  | whileS cond eol b => exact hf
+  | untilS cond eol b => exact hf
+  | func f p ps eol b => exact hf
 
 theorem ifS_wf (cond : Expression N) (eol : Eol) (t : List (Statement N)) (e : Option (List (Statement N))) :
     (Statement.ifS cond eol t e).wf = (cond.wf && (eol != .comma || cond.commaOK) && stmtsWf t &&
@@ -267,7 +332,20 @@ theorem func_wf (f p : VarSpec) (ps : List VarSpec) (eol : Eol) (b : List (State
 /-- kinds a statement can start with -/
 def stmtStarts : List TK :=
   [.say, .sayAlias, .put, .let_, .build, .knock, .listen, .turn, .rock, .roll, .return_, .break_,
-   .continue_, .take, .cut, .join, .cast, .word, .commonPrefix, .if_, .while_, .until_]
+   .continue_, .take, .cut, .join, .cast, .word, .commonPrefix, .pronoun, .if_, .while_, .until_]
+
+omit [CharOps] in
+theorem starts_not {k : TK} (h2 : stmtStarts.contains k = true) :
+    [TK.newline].contains k = false ∧ [TK.else_].contains k = false := by
+  revert h2
+  cases k <;> simp [stmtStarts]
+
+omit [CharOps] in
+theorem target_head_stmt (t : Target N) (c : Choices N) (r : List (Tok N)) :
+    ∃ t0 ts, t.toks c ++ r = t0 :: ts ∧ stmtStarts.contains t0.kind = true := by
+  obtain ⟨t0, ts, h1, h2⟩ := id_head_kind t.id (c.sub 0)
+  refine ⟨t0, ts ++ (subsToks t.subs (c.sub 1) ++ r), by simp [Target.toks, h1], ?_⟩
+  rcases h2 with h | h | h <;> rw [h] <;> rfl
 
 omit [CharOps] in
 theorem var_head_stmt (v : VarSpec) (c : Choices N) :
@@ -303,6 +381,10 @@ theorem simple_head (s : SimpleStmt N) (c : Choices N) :
   | call f a as =>
     obtain ⟨t, ts, h1, h2⟩ := var_head_stmt f (c.sub 0)
     exact ⟨t, _, by simp only [SimpleStmt.toks, h1, List.cons_append]; rfl, h2⟩
+  | poeticLit t lit => exact target_head_stmt t (c.sub 0) _
+  | poeticExpr t e => exact target_head_stmt t (c.sub 0) _
+  | poeticStr t text junk => exact target_head_stmt t (c.sub 0) _
+  | rockLike p lit => exact ⟨_, _, rfl, rfl⟩
 
 theorem stmt_head (s : Statement N) (c : Choices N) :
     ∃ t ts, s.toks c = t :: ts ∧ stmtStarts.contains t.kind = true := by
@@ -320,13 +402,7 @@ theorem lines_not_nl (s : Statement N) (ss : List (Statement N)) (c : Choices N)
   obtain ⟨t, ts, h1, h2⟩ := stmt_head s (c.sub 0)
   rw [lines_cons, h1]
   simp only [List.cons_append, nextIn_cons]
-  revert h2
-  generalize t.kind = k
-  intro h2
-  simp only [stmtStarts, List.contains_eq_mem, List.mem_cons, List.not_mem_nil, or_false,
-    decide_eq_true_eq] at h2
-  rcases h2 with h | h | h | h | h | h | h | h | h | h | h | h | h | h | h | h | h | h | h | h | h | h <;>
-    subst h <;> rfl
+  exact (starts_not h2).1
 
 /-! ### parameter lists -/
 
@@ -411,9 +487,9 @@ theorem block_run (b : List (Statement N)) (c : Choices N) (n : Nat) (rest : Lis
 
 def FnLinesRun (ls : List (Statement N)) (c : Choices N) (n : Nat) (rest : List (Tok N)) (src : Str)
     (eof : Snap) : Prop :=
-  ∀ last, ∃ ss', fnStmtLoopBody (parser n) ⟨src, fnLinesToks ls c ++ rest, last, eof, false⟩
-      = .ok (ss', ⟨src, rest, lastSnap (fnLinesToks ls c) last, eof, false⟩) ∧
-    eraseSL ss' = stmtsToStmt ls
+  ∀ last, ∃ ss' last', fnStmtLoopBody (parser n) ⟨src, fnLinesToks ls c ++ rest, last, eof, false⟩
+      = .ok (ss', ⟨src, rest, last', eof, false⟩) ∧
+    (rest ≠ [] → last' = lastSnap (fnLinesToks ls c) last) ∧ eraseSL ss' = stmtsToStmt ls
 
 theorem fnLines_not_nl (s : Statement N) (ss : List (Statement N)) (c : Choices N) (r : List (Tok N)) :
     nextIn [.newline] (fnLinesToks (s :: ss) c ++ r) = false := by
@@ -425,16 +501,17 @@ theorem fnLines_not_nl (s : Statement N) (ss : List (Statement N)) (c : Choices 
 
 theorem fnblock_run (b : List (Statement N)) (c : Choices N) (n : Nat) (rest : List (Tok N)) (src last eof)
     (hlast : SnapOK src last) (hlines : FnLinesRun b c n rest src eof) :
-    ∃ B, parseFunctionBlock (parser n) ⟨src, fnBlockToks b c ++ rest, last, eof, false⟩
-        = .ok (B, ⟨src, rest, lastSnap (fnBlockToks b c) last, eof, false⟩) ∧
+    ∃ B last', parseFunctionBlock (parser n) ⟨src, fnBlockToks b c ++ rest, last, eof, false⟩
+        = .ok (B, ⟨src, rest, last', eof, false⟩) ∧
+      (rest ≠ [] → last' = lastSnap (fnBlockToks b c) last) ∧
       eraseB B = .mk default (stmtsToStmt b) := by
   cases b with
   | nil =>
-    refine ⟨.mk ⟨last.line, last.idx - last.lineStart⟩ [], ?_, rfl⟩
+    refine ⟨.mk ⟨last.line, last.idx - last.lineStart⟩ [], _, ?_, fun _ => rfl, rfl⟩
     simp [fnBlockToks, parseFunctionBlock, bind_run, currentLoc_ok _ _ _ _ _ hlast, mac_cons, isKind, pure_run]
   | cons s ss =>
-    obtain ⟨ss', h1, h2⟩ := hlines last
-    refine ⟨.mk ⟨last.line, last.idx - last.lineStart⟩ ss', ?_, by simp [eraseB, h2]⟩
+    obtain ⟨ss', last', h1, hl, h2⟩ := hlines last
+    refine ⟨.mk ⟨last.line, last.idx - last.lineStart⟩ ss', last', ?_, hl, by simp [eraseB, h2]⟩
     simp only [fnBlockToks]
     simp [parseFunctionBlock, bind_run, currentLoc_ok _ _ _ _ _ hlast,
       mac_stop_kind (fnLines_not_nl s ss c rest), h1, pure_run]
@@ -480,22 +557,57 @@ theorem stmt_eol_last (s : Statement N) (c : Choices N) (l : Snap) :
   | simple s e => exact eol_last e c l
   | _ => rfl
 
+omit [CharOps] in
+theorem stmt_eol_head (s : Statement N) (c : Choices N) (r : List (Tok N)) :
+    (s.eolToks c ++ r).head? = (s.eolToks c).head? := by
+  cases s with
+  | simple s e => cases e <;> rfl
+  | _ => rfl
+
+omit [CharOps] in
+theorem stmt_eol_ne (s : Statement N) (c : Choices N) (r : List (Tok N)) : s.eolToks c ++ r ≠ [] := by
+  cases s with
+  | simple s e => cases e <;> simp [Statement.eolToks, eolToks]
+  | _ => simp [Statement.eolToks]
+
+theorem peekStop_congr (s : SimpleStmt N) {r r' : List (Tok N)} (h : r.head? = r'.head?)
+    (hp : s.PeekStop r) : s.PeekStop r' := by
+  cases s with
+  | break_ it =>
+    cases it with
+    | none => intro t ht; exact hp t (h ▸ ht)
+    | some it => trivial
+  | poeticLit t lit => intro t ht; exact hp t (h ▸ ht)
+  | rockLike p lit => intro t ht; exact hp t (h ▸ ht)
+  | _ => trivial
+
+/-- the side conditions of a line end, from the well-formedness of the line -/
+theorem eol_kind_ok (s : SimpleStmt N) (e : Eol) (k : TK) (hw : (Statement.simple s e).wf = true)
+    (h2 : (k = TK.dot ∧ e = Eol.dot) ∨ k = TK.newline ∨ (k = TK.comma ∧ e = Eol.comma)) :
+    (k = .dot ∧ s.dotOK = true) ∨ k = .newline ∨ (k = .comma ∧ s.commaOK = true) := by
+  rw [simple_wf] at hw
+  simp only [Bool.and_eq_true, Bool.or_eq_true] at hw
+  rcases h2 with ⟨h2, h2'⟩ | h2 | ⟨h2, h2'⟩
+  · refine Or.inl ⟨h2, ?_⟩
+    rcases hw.2.2 with h | h
+    · subst h2'; simp at h
+    · exact h
+  · exact Or.inr (Or.inl h2)
+  · refine Or.inr (Or.inr ⟨h2, ?_⟩)
+    rcases hw.2.1 with h | h
+    · subst h2'; simp at h
+    · exact h
+
 theorem stmt_stop_eol (s : Statement N) (c : Choices N) (r : List (Tok N)) (hw : s.wf = true)
-    (hit : c.NoIt) : s.Stop (s.eolToks c ++ r) := by
+    (hpk : s.EolOK c) : s.Stop (s.eolToks c ++ r) := by
   cases s with
   | simple s e =>
-    obtain ⟨k, c', ts, h1, h2, h3⟩ := eol_head e c hit
-    rw [simple_wf, Bool.and_eq_true, Bool.or_eq_true] at hw
+    obtain ⟨k, c', ts, h1, h2⟩ := eol_head e c
+    have hpk' : s.PeekStop (eolToks e c) := hpk
     show s.Stop (eolToks e c ++ r)
-    rw [h1]
-    exact simple_stop_eolkw s k c' (ts ++ r) (by
-      rcases h2 with h2 | h2 | ⟨h2, h2'⟩
-      · exact Or.inl h2
-      · exact Or.inr (Or.inl h2)
-      · refine Or.inr (Or.inr ⟨h2, ?_⟩)
-        rcases hw.2 with h | h
-        · subst h2'; simp at h
-        · exact h) h3
+    rw [h1] at hpk' ⊢
+    exact simple_stop_eolkw s k c' (ts ++ r) (eol_kind_ok s e k hw h2)
+      (peekStop_congr s (r := tk (.kw k) c' :: ts) (r' := tk (.kw k) c' :: (ts ++ r)) rfl hpk')
   | ifS cond eol t e => exact Or.inr rfl
   | whileS cond eol b => exact Or.inr rfl
   | untilS cond eol b => exact Or.inr rfl
@@ -504,10 +616,22 @@ theorem stmt_stop_eol (s : Statement N) (c : Choices N) (r : List (Tok N)) (hw :
 /-! ### statements, blocks: the mutual induction -/
 
 /-- the statement `s`, spelled with `c`, is parsed from its tokens (and nothing of `rest`) -/
-def StRuns (s : Statement N) (c : Choices N) (n : Nat) (rest : List (Tok N)) (src : Str)
+def StRunsX (s : Statement N) (c : Choices N) (n : Nat) (rest : List (Tok N)) (src : Str)
     (last eof : Snap) : Prop :=
   ∃ s', parseStatement (parser n) ⟨src, s.toks c ++ rest, last, eof, false⟩
       = .ok (some s', ⟨src, rest, lastSnap (s.toks c) last, eof, false⟩) ∧ eraseS s' = s.toStmt
+
+/-- … the lexer snapshot is known unless the statement ran into the end of the tokens -/
+def StRuns (s : Statement N) (c : Choices N) (n : Nat) (rest : List (Tok N)) (src : Str)
+    (last eof : Snap) : Prop :=
+  ∃ s' last', parseStatement (parser n) ⟨src, s.toks c ++ rest, last, eof, false⟩
+      = .ok (some s', ⟨src, rest, last', eof, false⟩) ∧
+    (rest ≠ [] → last' = lastSnap (s.toks c) last) ∧ eraseS s' = s.toStmt
+
+theorem StRunsX.weak {s : Statement N} {c : Choices N} {n : Nat} {rest : List (Tok N)} {src : Str}
+    {last eof : Snap} (h : StRunsX s c n rest src last eof) : StRuns s c n rest src last eof := by
+  obtain ⟨s', h1, h2⟩ := h
+  exact ⟨s', _, h1, fun _ => rfl, h2⟩
 
 theorem hrec_block (n : Nat) : (parser (n + 1) : Rec N).block = parseBlock (parser n) := rfl
 theorem hrec_fnblock (n : Nat) : (parser (n + 1) : Rec N).functionBlock = parseFunctionBlock (parser n) := rfl
@@ -515,12 +639,12 @@ theorem hrec_stmtLoop (n : Nat) : (parser (n + 1) : Rec N).stmtLoop = stmtLoopBo
 theorem hrec_fnStmtLoop (n : Nat) : (parser (n + 1) : Rec N).fnStmtLoop = fnStmtLoopBody (parser n) := rfl
 
 theorem cond_stop (cond : Expression N) (eol : Eol) (c2 : Choices N) (r : List (Tok N))
-    (hok : (eol != .comma || cond.commaOK) = true) (hit : c2.NoIt) :
+    (hok : (eol != .comma || cond.commaOK) = true) :
     logicalSyn.Stop false cond (eolToks eol c2 ++ r) := by
-  obtain ⟨k, c', ts, h1, h2, _⟩ := eol_head eol c2 hit
+  obtain ⟨k, c', ts, h1, h2⟩ := eol_head eol c2
   rw [h1]
   refine expr_stop_eolkw cond k c' (ts ++ r) ?_
-  rcases h2 with h2 | h2 | ⟨h2, h2'⟩
+  rcases h2 with ⟨h2, _⟩ | h2 | ⟨h2, h2'⟩
   · exact Or.inl h2
   · exact Or.inr (Or.inl h2)
   · refine Or.inr (Or.inr ⟨h2, ?_⟩)
@@ -604,16 +728,19 @@ theorem loop_dispatch (isWhile : Bool) (c0 : Choices N) (ts : List (Tok N)) (rec
 
 mutual
 theorem stmt_run : (s : Statement N) → ∀ (c : Choices N) (n : Nat) (rest : List (Tok N)) (src last eof),
-    s.wf = true → (s.toks c).length ≤ n → s.Stop rest → c.Sane src → c.NoIt →
+    s.wf = true → (s.toks c).length ≤ n → s.Stop rest → c.Sane src → s.Fits src c rest →
     StRuns s c n rest src last eof
-  | .simple s eol, c, n, rest, src, last, eof, hw, hn, hs, hsane, _ => by
+  | .simple s eol, c, n, rest, src, last, eof, hw, hn, hs, hsane, hfit => by
     rw [simple_wf, Bool.and_eq_true] at hw
-    exact simple_run s c n rest src last eof hw.1 hn hs hsane
-  | .ifS cond eol t e, c, n, rest, src, last, eof, hw, hn, hs, hsane, hit => by
+    exact simple_run s c n rest src last eof hw.1 hn hs hsane hfit
+  | .ifS cond eol t e, c, n, rest, src, last, eof, hw, hn, hs, hsane, hfit => by
     rw [ifS_wf] at hw
     simp only [Bool.and_eq_true] at hw
     obtain ⟨⟨⟨hwc, hok⟩, hwt⟩, hwe⟩ := hw
-    unfold StRuns
+    rw [ifS_fits] at hfit
+    obtain ⟨hfT, hfE⟩ := hfit
+    apply StRunsX.weak
+    unfold StRunsX
     rw [ifS_toks] at hn ⊢
     simp only [List.length_cons, List.length_append] at hn
     have hlt := lines_len_le_block t (c.sub 3)
@@ -621,7 +748,6 @@ theorem stmt_run : (s : Statement N) → ∀ (c : Choices N) (n : Nat) (rest : L
     | zero => omega
     | succ n =>
       have hcs := cond_stop cond eol (c.sub 2) (blockToks t (c.sub 3) ++ (elseToks e c ++ rest)) hok
-        (noIt_sub hit 2)
       have he := fun last => expression_run cond (c.sub 1) (n + 1) _ src last eof false hwc (by omega) hcs
       have heol := fun last => expectEol_run eol (c.sub 2) (blockToks t (c.sub 3) ++ (elseToks e c ++ rest))
         src last eof false
@@ -630,7 +756,7 @@ theorem stmt_run : (s : Statement N) → ∀ (c : Choices N) (n : Nat) (rest : L
         | none => simpa [elseToks] using lineEnd_blockEnd hs
         | some b => exact Or.inr rfl
       have hlinesT : LinesRun t (c.sub 3) n (elseToks e c ++ rest) src eof := fun last =>
-        lines_run t (c.sub 3) n _ src last eof hwt (by omega) hbe (sane_sub hsane 3) (noIt_sub hit 3)
+        lines_run t (c.sub 3) n _ src last eof hwt (by omega) hbe (sane_sub hsane 3) hfT
       obtain ⟨TB, hTB, hTs⟩ := block_run t (c.sub 3) n (elseToks e c ++ rest) src
         ((c.sub 2).sub 1).here.after eof (sane_here hsane [2, 1]) hlinesT
       cases e with
@@ -646,7 +772,7 @@ theorem stmt_run : (s : Statement N) → ∀ (c : Choices N) (n : Nat) (rest : L
         simp only [elseToks, List.length_cons] at hn
         have hlinesE : LinesRun b (c.sub 6) n rest src eof := fun last =>
           lines_run b (c.sub 6) n rest src last eof hwe (by omega) (lineEnd_blockEnd hs) (sane_sub hsane 6)
-            (noIt_sub hit 6)
+            hfE
         obtain ⟨EB, hEB, hEs⟩ := block_run b (c.sub 6) n rest src (c.sub 5).here.after eof
           (sane_here hsane [5]) hlinesE
         simp only [elseToks, List.cons_append, List.append_assoc] at hTB he heol ⊢
@@ -655,23 +781,25 @@ theorem stmt_run : (s : Statement N) → ∀ (c : Choices N) (n : Nat) (rest : L
             heol, eol_last, hrec_block, hTB, mac_cons, expectTokenOrEnd, advance_cons, hEB, pure_run]
         · simp only [eraseS, hTs, hEs, expr_shape]
           rfl
-  | .whileS cond eol b, c, n, rest, src, last, eof, hw, hn, hs, hsane, hit => by
+  | .whileS cond eol b, c, n, rest, src, last, eof, hw, hn, hs, hsane, hfit => by
     rw [whileS_wf] at hw
     simp only [Bool.and_eq_true] at hw
     obtain ⟨⟨hwc, hok⟩, hwb⟩ := hw
-    unfold StRuns
+    rw [whileS_fits] at hfit
+    apply StRunsX.weak
+    unfold StRunsX
     rw [whileS_toks] at hn ⊢
     simp only [List.length_cons, List.length_append] at hn
     have hlt := lines_len_le_block b (c.sub 3)
     cases n with
     | zero => omega
     | succ n =>
-      have hcs := cond_stop cond eol (c.sub 2) (blockToks b (c.sub 3) ++ rest) hok (noIt_sub hit 2)
+      have hcs := cond_stop cond eol (c.sub 2) (blockToks b (c.sub 3) ++ rest) hok
       have he := fun last => expression_run cond (c.sub 1) (n + 1) _ src last eof false hwc (by omega) hcs
       have heol := fun last => expectEol_run eol (c.sub 2) (blockToks b (c.sub 3) ++ rest) src last eof false
       have hlines : LinesRun b (c.sub 3) n rest src eof := fun last =>
         lines_run b (c.sub 3) n _ src last eof hwb (by omega) (lineEnd_blockEnd hs) (sane_sub hsane 3)
-          (noIt_sub hit 3)
+          hfit
       obtain ⟨B, hB, hBs⟩ := block_run b (c.sub 3) n rest src ((c.sub 2).sub 1).here.after eof
         (sane_here hsane [2, 1]) hlines
       refine ⟨.whileS (logicalLay.ast cond (c.sub 1)) B, ?_, ?_⟩
@@ -684,23 +812,25 @@ theorem stmt_run : (s : Statement N) → ∀ (c : Choices N) (n : Nat) (rest : L
           pure_run]
       · simp only [eraseS, hBs, expr_shape]
         rfl
-  | .untilS cond eol b, c, n, rest, src, last, eof, hw, hn, hs, hsane, hit => by
+  | .untilS cond eol b, c, n, rest, src, last, eof, hw, hn, hs, hsane, hfit => by
     rw [untilS_wf] at hw
     simp only [Bool.and_eq_true] at hw
     obtain ⟨⟨hwc, hok⟩, hwb⟩ := hw
-    unfold StRuns
+    rw [untilS_fits] at hfit
+    apply StRunsX.weak
+    unfold StRunsX
     rw [untilS_toks] at hn ⊢
     simp only [List.length_cons, List.length_append] at hn
     have hlt := lines_len_le_block b (c.sub 3)
     cases n with
     | zero => omega
     | succ n =>
-      have hcs := cond_stop cond eol (c.sub 2) (blockToks b (c.sub 3) ++ rest) hok (noIt_sub hit 2)
+      have hcs := cond_stop cond eol (c.sub 2) (blockToks b (c.sub 3) ++ rest) hok
       have he := fun last => expression_run cond (c.sub 1) (n + 1) _ src last eof false hwc (by omega) hcs
       have heol := fun last => expectEol_run eol (c.sub 2) (blockToks b (c.sub 3) ++ rest) src last eof false
       have hlines : LinesRun b (c.sub 3) n rest src eof := fun last =>
         lines_run b (c.sub 3) n _ src last eof hwb (by omega) (lineEnd_blockEnd hs) (sane_sub hsane 3)
-          (noIt_sub hit 3)
+          hfit
       obtain ⟨B, hB, hBs⟩ := block_run b (c.sub 3) n rest src ((c.sub 2).sub 1).here.after eof
         (sane_here hsane [2, 1]) hlines
       refine ⟨.untilS (logicalLay.ast cond (c.sub 1)) B, ?_, ?_⟩
@@ -713,10 +843,11 @@ theorem stmt_run : (s : Statement N) → ∀ (c : Choices N) (n : Nat) (rest : L
           pure_run]
       · simp only [eraseS, hBs, expr_shape]
         rfl
-  | .func f p ps eol b, c, n, rest, src, last, eof, hw, hn, hs, hsane, hit => by
+  | .func f p ps eol b, c, n, rest, src, last, eof, hw, hn, hs, hsane, hfit => by
     rw [func_wf] at hw
     simp only [Bool.and_eq_true] at hw
     obtain ⟨⟨⟨⟨⟨hwf, hwp⟩, hwps⟩, heolc⟩, hwb⟩, hbody⟩ := hw
+    rw [func_fits] at hfit
     unfold StRuns
     rw [func_toks] at hn ⊢
     simp only [List.length_cons, List.length_append] at hn
@@ -748,11 +879,11 @@ theorem stmt_run : (s : Statement N) → ∀ (c : Choices N) (n : Nat) (rest : L
         (fnBlockToks b (c.sub 5) ++ rest)) src last eof false hwps (by omega) heh
       have heol := fun last => expectEol_run eol (c.sub 4) (fnBlockToks b (c.sub 5) ++ rest) src last eof false
       have hfl : FnLinesRun b (c.sub 5) n rest src eof := fun last =>
-        fnlines_run b (c.sub 5) n rest src last eof hwb hbody (by omega) hs (sane_sub hsane 5) (noIt_sub hit 5)
-      obtain ⟨B, hB, hBs⟩ := fnblock_run b (c.sub 5) n rest src ((c.sub 4).sub 1).here.after eof
+        fnlines_run b (c.sub 5) n rest src last eof hwb hbody (by omega) hs (sane_sub hsane 5) hfit
+      obtain ⟨B, lastB, hB, hlB, hBs⟩ := fnblock_run b (c.sub 5) n rest src ((c.sub 4).sub 1).here.after eof
         (sane_here hsane [4, 1]) hfl
       refine ⟨.func f.toName (f.range (c.sub 0)) ((p.toName, p.range (c.sub 2)) :: paramsR ps (c.sub 3)) B,
-        ?_, ?_⟩
+        lastB, ?_, ?_, ?_⟩
       · obtain ⟨t0, ts0, h1, h2⟩ := var_head_kind f (c.sub 0)
         simp only [IdSpec.toks, IdSpec.toIdent, IdSpec.range] at hx
         change expectIdentifier (parser (n + 1)) ⟨src, f.toks (c.sub 0) ++ _, last, eof, false⟩ = _ at hx
@@ -770,19 +901,24 @@ theorem stmt_run : (s : Statement N) → ∀ (c : Choices N) (n : Nat) (rest : L
         simp [map_run, parseStatementStartingWithWord, bind_run, hx, current_run, asVariableName,
           parseFunction, consume_cons, isKind, parseParameterList, hp, hps, heol, eol_last, hrec_fnblock, hB,
           pure_run]
+      · intro hne
+        rw [hlB hne]
+        simp [lastSnap_append, eol_last]
       · simp only [eraseS, hBs, List.map_cons, paramsR_erase]
         rfl
 theorem lines_run : (ls : List (Statement N)) → ∀ (c : Choices N) (n : Nat) (rest : List (Tok N))
       (src last eof),
-    stmtsWf ls = true → (linesToks ls c).length ≤ n → BlockEnd rest → c.Sane src → c.NoIt →
+    stmtsWf ls = true → (linesToks ls c).length ≤ n → BlockEnd rest → c.Sane src → linesFit src ls c →
     ∃ ss', stmtLoopBody (parser n) ⟨src, linesToks ls c ++ rest, last, eof, false⟩
         = .ok (ss', ⟨src, rest, lastSnap (linesToks ls c) last, eof, false⟩) ∧
       eraseSL ss' = stmtsToStmt ls
   | [], c, n, rest, src, last, eof, _, _, hbe, _, _ => by
     refine ⟨[], ?_, rfl⟩
     simp [lines_nil, stmtLoopBody, bind_run, stmt_none hbe, pure_run]
-  | s :: ss, c, n, rest, src, last, eof, hw, hn, hbe, hsane, hit => by
+  | s :: ss, c, n, rest, src, last, eof, hw, hn, hbe, hsane, hfit => by
     rw [stmtsWf_cons, Bool.and_eq_true] at hw
+    rw [linesFit_cons] at hfit
+    obtain ⟨hf1, hf2, hf3⟩ := hfit
     rw [lines_cons] at hn ⊢
     simp only [List.length_append] at hn
     obtain ⟨t0, ts0, hh, _⟩ := stmt_head s (c.sub 0)
@@ -790,12 +926,15 @@ theorem lines_run : (ls : List (Statement N)) → ∀ (c : Choices N) (n : Nat) 
     cases n with
     | zero => omega
     | succ n =>
-      obtain ⟨s', hs1, hs2⟩ := stmt_run s (c.sub 0) (n + 1) (s.eolToks (c.sub 1) ++ (linesToks ss (c.sub 2) ++ rest))
-        src last eof hw.1 (by omega) (stmt_stop_eol s (c.sub 1) _ hw.1 (noIt_sub hit 1)) (sane_sub hsane 0)
-        (noIt_sub hit 0)
+      obtain ⟨s', last', hs1, hl1, hs2⟩ := stmt_run s (c.sub 0) (n + 1)
+        (s.eolToks (c.sub 1) ++ (linesToks ss (c.sub 2) ++ rest))
+        src last eof hw.1 (by omega) (stmt_stop_eol s (c.sub 1) _ hw.1 hf2) (sane_sub hsane 0)
+        (stmt_fits_congr src s _ (stmt_eol_head s _ _).symm hf1)
+      have hl1' := hl1 (stmt_eol_ne s _ _)
+      subst hl1'
       obtain ⟨ss', hss1, hss2⟩ := lines_run ss (c.sub 2) n rest src
         (lastSnap (s.eolToks (c.sub 1)) (lastSnap (s.toks (c.sub 0)) last)) eof hw.2 (by omega) hbe
-        (sane_sub hsane 2) (noIt_sub hit 2)
+        (sane_sub hsane 2) hf3
       refine ⟨s' :: ss', ?_, by simp [eraseSL, hs2, hss2, stmtsToStmt_cons]⟩
       simp only [List.append_assoc]
       rw [stmtLoopBody]
@@ -803,15 +942,17 @@ theorem lines_run : (ls : List (Statement N)) → ∀ (c : Choices N) (n : Nat) 
 theorem fnlines_run : (ls : List (Statement N)) → ∀ (c : Choices N) (n : Nat) (rest : List (Tok N))
       (src last eof),
     stmtsWf ls = true → fnBodyOK ls = true → (fnLinesToks ls c).length ≤ n → LineEnd rest →
-    c.Sane src → c.NoIt →
-    ∃ ss', fnStmtLoopBody (parser n) ⟨src, fnLinesToks ls c ++ rest, last, eof, false⟩
-        = .ok (ss', ⟨src, rest, lastSnap (fnLinesToks ls c) last, eof, false⟩) ∧
-      eraseSL ss' = stmtsToStmt ls
+    c.Sane src → fnLinesFit src ls c →
+    ∃ ss' last', fnStmtLoopBody (parser n) ⟨src, fnLinesToks ls c ++ rest, last, eof, false⟩
+        = .ok (ss', ⟨src, rest, last', eof, false⟩) ∧
+      (rest ≠ [] → last' = lastSnap (fnLinesToks ls c) last) ∧ eraseSL ss' = stmtsToStmt ls
   | [], c, n, rest, src, last, eof, _, _, _, hle, _, _ => by
-    refine ⟨[], ?_, rfl⟩
+    refine ⟨[], last, ?_, fun _ => rfl, rfl⟩
     simp [fnLines_nil, fnStmtLoopBody, bind_run, stmt_none (lineEnd_blockEnd hle), pure_run]
-  | s :: ss, c, n, rest, src, last, eof, hw, hok, hn, hle, hsane, hit => by
+  | s :: ss, c, n, rest, src, last, eof, hw, hok, hn, hle, hsane, hfit => by
     rw [stmtsWf_cons, Bool.and_eq_true] at hw
+    rw [fnLinesFit_cons] at hfit
+    obtain ⟨hf1, hf3⟩ := hfit
     rw [fnLines_cons] at hn ⊢
     obtain ⟨t0, ts0, hh, _⟩ := stmt_head s (c.sub 0)
     have hpos : 1 ≤ (s.toks (c.sub 0)).length := by simp [hh]
@@ -824,12 +965,12 @@ theorem fnlines_run : (ls : List (Statement N)) → ∀ (c : Choices N) (n : Nat
         obtain ⟨hss, hie⟩ := hterm
         subst hss
         simp only [List.isEmpty_nil, hie, Bool.and_self, if_true, fnLines_nil, List.append_nil,
-          List.nil_append] at hn ⊢
-        obtain ⟨s', hs1, hs2⟩ := stmt_run s (c.sub 0) (n + 1) rest src last eof hw.1 hn
-          (isIfElse_stop hie hle) (sane_sub hsane 0) (noIt_sub hit 0)
+          List.nil_append] at hn hf1 ⊢
+        obtain ⟨s', last', hs1, hl1, hs2⟩ := stmt_run s (c.sub 0) (n + 1) rest src last eof hw.1 hn
+          (isIfElse_stop hie hle) (sane_sub hsane 0) (stmt_fits_congr_compound src s _ hie hf1)
         have hft : isFunctionTerminator s' = true := by
           rw [← isFunctionTerminator_erase, hs2, isFunctionTerminator_toStmt]; exact hie
-        refine ⟨[s'], ?_, by simp [eraseSL, hs2, stmtsToStmt_cons]; rfl⟩
+        refine ⟨[s'], last', ?_, hl1, by simp [eraseSL, hs2, stmtsToStmt_cons]; rfl⟩
         rw [fnStmtLoopBody]
         simp [bind_run, hs1, hft, pure_run]
       · have hnt : s.isIfElse = false := by
@@ -837,17 +978,20 @@ theorem fnlines_run : (ls : List (Statement N)) → ∀ (c : Choices N) (n : Nat
           | nil => simpa using hterm
           | cons s2 ss2 => exact hok2 (by simp)
         have hterm' : (ss.isEmpty && s.isIfElse) = false := by simp [hnt]
-        simp only [hterm', Bool.false_eq_true, if_false, List.length_append] at hn ⊢
-        obtain ⟨s', hs1, hs2⟩ := stmt_run s (c.sub 0) (n + 1)
+        simp only [hterm', Bool.false_eq_true, if_false, List.length_append] at hn hf1 ⊢
+        obtain ⟨s', last', hs1, hl1, hs2⟩ := stmt_run s (c.sub 0) (n + 1)
           (s.eolToks (c.sub 1) ++ (fnLinesToks ss (c.sub 2) ++ rest))
-          src last eof hw.1 (by omega) (stmt_stop_eol s (c.sub 1) _ hw.1 (noIt_sub hit 1)) (sane_sub hsane 0)
-          (noIt_sub hit 0)
+          src last eof hw.1 (by omega) (stmt_stop_eol s (c.sub 1) _ hw.1 hf1.2) (sane_sub hsane 0)
+          (stmt_fits_congr src s _ (stmt_eol_head s _ _).symm hf1.1)
+        have hl1' := hl1 (stmt_eol_ne s _ _)
+        subst hl1'
         have hft : isFunctionTerminator s' = false := by
           rw [← isFunctionTerminator_erase, hs2, isFunctionTerminator_toStmt]; exact hnt
-        obtain ⟨ss', hss1, hss2⟩ := fnlines_run ss (c.sub 2) n rest src
+        obtain ⟨ss', last2, hss1, hl2, hss2⟩ := fnlines_run ss (c.sub 2) n rest src
           (lastSnap (s.eolToks (c.sub 1)) (lastSnap (s.toks (c.sub 0)) last)) eof hw.2 hok1 (by omega) hle
-          (sane_sub hsane 2) (noIt_sub hit 2)
-        refine ⟨s' :: ss', ?_, by simp [eraseSL, hs2, hss2, stmtsToStmt_cons]⟩
+          (sane_sub hsane 2) hf3
+        refine ⟨s' :: ss', last2, ?_, fun hne => by rw [hl2 hne]; simp [lastSnap_append],
+          by simp [eraseSL, hs2, hss2, stmtsToStmt_cons]⟩
         simp only [List.append_assoc]
         rw [fnStmtLoopBody]
         simp [bind_run, hs1, hft, expectEol_stmt, hrec_fnStmtLoop, hss1, pure_run]
@@ -928,13 +1072,7 @@ theorem prog_not_else (bs : List (List (Statement N))) (c : Choices N) (hw : pro
       obtain ⟨t, ts, h1, h2⟩ := stmt_head s ((c.sub 1).sub 0)
       rw [lines_cons, h1]
       simp only [List.cons_append, nextIn_cons]
-      revert h2
-      generalize t.kind = k
-      intro h2
-      simp only [stmtStarts, List.contains_eq_mem, List.mem_cons, List.not_mem_nil, or_false,
-        decide_eq_true_eq] at h2
-      rcases h2 with h | h | h | h | h | h | h | h | h | h | h | h | h | h | h | h | h | h | h | h | h | h <;>
-        subst h <;> rfl
+      exact (starts_not h2).2
 
 theorem lines_not_else (b : List (Statement N)) (hne : b ≠ []) (c : Choices N) (r : List (Tok N)) :
     nextIn [.else_] (linesToks b c ++ r) = false := by
@@ -944,13 +1082,7 @@ theorem lines_not_else (b : List (Statement N)) (hne : b ≠ []) (c : Choices N)
     obtain ⟨t, ts, h1, h2⟩ := stmt_head s (c.sub 0)
     rw [lines_cons, h1]
     simp only [List.cons_append, nextIn_cons]
-    revert h2
-    generalize t.kind = k
-    intro h2
-    simp only [stmtStarts, List.contains_eq_mem, List.mem_cons, List.not_mem_nil, or_false,
-      decide_eq_true_eq] at h2
-    rcases h2 with h | h | h | h | h | h | h | h | h | h | h | h | h | h | h | h | h | h | h | h | h | h <;>
-      subst h <;> rfl
+    exact (starts_not h2).2
 
 /-- one more top-level block in front -/
 theorem prog_step (b : List (Statement N)) (hne : b ≠ []) (hwb : stmtsWf b = true) (X : List (Tok N))
@@ -959,7 +1091,7 @@ theorem prog_step (b : List (Statement N)) (hne : b ≠ []) (hwb : stmtsWf b = t
     (hXe : nextIn [.else_] X = false)
     (c0 c1 c2 : Choices N) (k n : Nat) (last : Snap)
     (hn : k + (linesToks b c1).length + 1 + X.length ≤ n) (hl : SnapOK src last)
-    (hs0 : c0.Sane src) (hs1 : c1.Sane src) (hit1 : c1.NoIt) (hs2 : SnapOK src c2.here.after) :
+    (hs0 : c0.Sane src) (hs1 : c1.Sane src) (hit1 : linesFit src b c1) (hs2 : SnapOK src c2.here.after) :
     TopRuns n src (blanksToks k c0 ++ (linesToks b c1 ++ tk (.kw .newline) c2 :: X)) last eof
       (.mk default (stmtsToStmt b) :: expected) := by
   refine blanks_run _ src eof _ ?_ (lines_not_else b hne c1 _) k c0 n last
@@ -1005,7 +1137,7 @@ theorem prog_step (b : List (Statement N)) (hne : b ≠ []) (hwb : stmtsWf b = t
         · simp [eraseB, hl2, h3]
 
 theorem prog_run : ∀ (bs : List (List (Statement N))) (c : Choices N) (n : Nat) (src : Str) (last eof : Snap),
-    progWf bs = true → (progToks bs c).length ≤ n → SnapOK src last → c.Sane src → c.NoIt →
+    progWf bs = true → (progToks bs c).length ≤ n → SnapOK src last → c.Sane src → progFits src bs c →
     TopRuns n src (progToks bs c) last eof (progToAst bs) := by
   intro bs
   induction bs with
@@ -1023,32 +1155,32 @@ theorem prog_run : ∀ (bs : List (List (Statement N))) (c : Choices N) (n : Nat
     rw [progToks] at hn ⊢
     simp only [List.length_append, List.length_cons, blanks_len] at hn
     exact prog_step b hne hwb (progToks bs (c.sub 3)) src eof (progToAst bs)
-      (fun m last' hm hl' => ih (c.sub 3) m src last' eof hwbs' hm hl' (sane_sub hs 3) (noIt_sub hit 3))
+      (fun m last' hm hl' => ih (c.sub 3) m src last' eof hwbs' hm hl' (sane_sub hs 3) hit.2)
       (prog_not_else bs (c.sub 3) hwbs') (c.sub 0) (c.sub 1) (c.sub 2) (c.sub 0).choice n last (by omega) hl
-      (sane_sub hs 0) (sane_sub hs 1) (noIt_sub hit 1) (sane_here hs [2])
+      (sane_sub hs 0) (sane_sub hs 1) hit.1 (sane_here hs [2])
 
 /-! ### packaged for arbitrary states -/
 
 theorem statement_roundtrip (s : Statement N) (c : Choices N) (rest : List (Tok N)) (st : PState N) (n : Nat)
     (hwf : s.wf = true) (hstop : s.Stop rest) (htoks : st.toks = s.toks c ++ rest)
-    (hflag : st.parsingList = false) (hsane : c.Sane st.src) (hit : c.NoIt)
+    (hflag : st.parsingList = false) (hsane : c.Sane st.src) (hfit : s.Fits st.src c rest)
     (hn : (s.toks c).length ≤ n) :
     ∃ s' st', parseStatement (parser n) st = .ok (some s', st') ∧ eraseS s' = s.toStmt ∧
       st'.toks = rest ∧ st'.parsingList = false := by
   obtain ⟨src, toks, last, eof, pl⟩ := st
-  simp only at htoks hflag hsane
+  simp only at htoks hflag hsane hfit
   subst htoks hflag
-  obtain ⟨s', h1, h2⟩ := stmt_run s c n rest src last eof hwf hn hstop hsane hit
+  obtain ⟨s', last', h1, _, h2⟩ := stmt_run s c n rest src last eof hwf hn hstop hsane hfit
   exact ⟨s', _, h1, h2, rfl, rfl⟩
 
 theorem block_roundtrip (b : List (Statement N)) (c : Choices N) (rest : List (Tok N)) (st : PState N)
     (n : Nat) (hwf : stmtsWf b = true) (hstop : BlockEnd rest) (htoks : st.toks = blockToks b c ++ rest)
-    (hflag : st.parsingList = false) (hlast : SnapOK st.src st.last) (hsane : c.Sane st.src) (hit : c.NoIt)
-    (hn : (blockToks b c).length ≤ n) :
+    (hflag : st.parsingList = false) (hlast : SnapOK st.src st.last) (hsane : c.Sane st.src)
+    (hit : linesFit st.src b c) (hn : (blockToks b c).length ≤ n) :
     ∃ B st', parseBlock (parser n) st = .ok (B, st') ∧ eraseB B = .mk default (stmtsToStmt b) ∧
       st'.toks = rest ∧ st'.parsingList = false := by
   obtain ⟨src, toks, last, eof, pl⟩ := st
-  simp only at htoks hflag hsane hlast
+  simp only at htoks hflag hsane hlast hit
   subst htoks hflag
   have hl := lines_len_le_block b c
   obtain ⟨B, h1, h2⟩ := block_run b c n rest src last eof hlast
@@ -1057,12 +1189,12 @@ theorem block_roundtrip (b : List (Statement N)) (c : Choices N) (rest : List (T
 
 theorem program_roundtrip (bs : List (List (Statement N))) (c : Choices N) (st : PState N) (n : Nat)
     (hwf : progWf bs = true) (htoks : st.toks = progToks bs c) (hflag : st.parsingList = false)
-    (hlast : SnapOK st.src st.last) (hsane : c.Sane st.src) (hit : c.NoIt)
+    (hlast : SnapOK st.src st.last) (hsane : c.Sane st.src) (hit : progFits st.src bs c)
     (hn : (progToks bs c).length ≤ n) :
     ∃ p st', parseProgramBody (parser n) st = .ok (p, st') ∧ p.code.map eraseB = progToAst bs ∧
       st'.toks = [] := by
   obtain ⟨src, toks, last, eof, pl⟩ := st
-  simp only at htoks hflag hsane hlast
+  simp only at htoks hflag hsane hlast hit
   subst htoks hflag
   obtain ⟨bl, st', h1, h2, h3⟩ := prog_run bs c n src last eof hwf hn hlast hsane hit
   exact ⟨⟨bl⟩, st', by simp [parseProgramBody, bind_run, h1, pure_run], h3, h2⟩
